@@ -3,7 +3,7 @@ import vf
 
 ENC = ["cminx.documentation_types.<Kind>Documentation.process", "cminx.rstwriter.RSTWriter.directive/text/field/bulleted_list/to_text",
        "cminx.rstwriter.Directive.to_text/option", "Paragraph/Field/Option/RSTList/DirectiveHeading/Heading string builders", "get_indents"]
-SHAPE_NAMES = ["plain", "blank", "field ':f: w'", "bullet '* w'", "indented continuation", "directive '.. x:: w'", "literal marker 'w::'"]
+SHAPE_NAMES = ["plain", "blank", "field ':f: w'", "bullet '* w'", "indented continuation", "directive '.. x:: w'", "literal marker 'w::'", "field ':type: w'", "field ':param w: x'"]
 
 
 def count(kind, shape, doc):
